@@ -16,7 +16,12 @@
  *                         after an error the tokener is reset): a:b slice, a:bz slice+NUL, a:bm slice
  *                         NUL-terminated with len=-1, n<k> len=-k, r json_tokener_reset
  *        fault:  0 none, 1 duplocale fails with ENOMEM, 2 newlocale fails
- *   S <jvtext> <flags>      json_object_to_json_string_ext
+ *   S <jvtext> <flags> [<cfg>]   json_object_to_json_string_ext; cfg = - | comma-separated, applied in order:
+ *        G<hexfmt|0>  json_c_set_serialization_double_format(fmt, JSON_C_OPTION_GLOBAL)   (0 = NULL)
+ *        T<hexfmt|0>  json_c_set_serialization_double_format(fmt, JSON_C_OPTION_THREAD)
+ *        O<hexfmt|0>  per-object format: json_object_set_serializer(d, json_object_double_to_json_string, fmt, free) on every double
+ *        D            json_object_set_double(d, value of d) on every double (drops a retained source text)
+ *        (global/thread formats are reset to NULL after the case)
  *   G <hexstring>           json_object_get_double(json_object_new_string(...))
  *   F <16 hex digits>       the libc oracle itself: snprintf("%.17g") of the double with these bits
  *                           (validates the hypothesis of C14_ser_locale_indep; the modes DO differ here)
@@ -306,6 +311,33 @@ static char *hex_string(const unsigned char *b, size_t n)
 	return s;
 }
 
+/* apply a per-object configuration to every double in the tree:
+ *   'O' json_object_set_serializer(d, json_object_double_to_json_string, strdup(fmt), json_object_free_userdata)
+ *       (the documented way to give one double its own printf format)
+ *   'D' json_object_set_double(d, <its own value>): drops a retained source text, back to the formatted path */
+static void cfg_doubles(struct json_object *o, char what, const char *fmt)
+{
+	if (!o) return;
+	switch (json_object_get_type(o)) {
+	case json_type_double:
+		if (what == 'O')
+			json_object_set_serializer(o, json_object_double_to_json_string, fmt ? strdup(fmt) : NULL,
+			                           fmt ? json_object_free_userdata : NULL);
+		else
+			json_object_set_double(o, json_object_get_double(o));
+		break;
+	case json_type_array: {
+		size_t i, n = json_object_array_length(o);
+		for (i = 0; i < n; i++) cfg_doubles(json_object_array_get_idx(o, i), what, fmt);
+		break; }
+	case json_type_object: {
+		struct lh_entry *e;
+		for (e = json_object_get_object(o)->head; e; e = e->next) cfg_doubles((struct json_object *)lh_entry_v(e), what, fmt);
+		break; }
+	default: break;
+	}
+}
+
 void run_case(char *rest)
 {
 	char *save = NULL, *op = strtok_r(rest, " ", &save);
@@ -329,14 +361,35 @@ void run_case(char *rest)
 			data[k] = parse_mode(MODES[k], text, n, atoi(fl), atoi(dp), ch, atoi(ft), &v[k], &leak[k]);
 		free(text);
 	} else if (op[0] == 'S') {
-		char *jt = strtok_r(NULL, " ", &save), *fl = strtok_r(NULL, " ", &save);
+		char *jt = strtok_r(NULL, " ", &save), *fl = strtok_r(NULL, " ", &save), *cfg = strtok_r(NULL, " ", &save);
 		const char *p = jt;
-		int err = 0;
+		int err = 0, cfg_bad = 0;
 		struct json_object *o;
 		if (!jt || !fl) { printf("BADLINE"); return; }
 		o = jv_parse(&p, &err);
 		if (err || *p) { printf("BADTREE"); if (o) json_object_put(o); return; }
-		for (k = 0; k < 3; k++) {
+		/* serializer configuration, applied in order (in the C locale, before the three modes) */
+		if (cfg && strcmp(cfg, "-") != 0) {
+			char *save3 = NULL, *it;
+			for (it = strtok_r(cfg, ",", &save3); it; it = strtok_r(NULL, ",", &save3)) {
+				size_t fn = 0; unsigned char *fb = NULL; char *fmt = NULL;
+				if (it[0] == 'G' || it[0] == 'T' || it[0] == 'O') {
+					if (strcmp(it + 1, "0") != 0) {       /* "0" = NULL format (back to the default) */
+						fb = unhex(it + 1, &fn);
+						fmt = (char *)malloc(fn + 1); memcpy(fmt, fb, fn); fmt[fn] = 0; free(fb);
+					}
+				}
+				switch (it[0]) {
+				case 'G': if (json_c_set_serialization_double_format(fmt, JSON_C_OPTION_GLOBAL) != 0) cfg_bad = 1; break;
+				case 'T': if (json_c_set_serialization_double_format(fmt, JSON_C_OPTION_THREAD) != 0) cfg_bad = 1; break;
+				case 'O': cfg_doubles(o, 'O', fmt); break;
+				case 'D': cfg_doubles(o, 'D', NULL); break;
+				default: cfg_bad = 1;
+				}
+				free(fmt);
+			}
+		}
+		for (k = 0; k < 3 && !cfg_bad; k++) {
 			struct snap a;
 			const char *s;
 			size_t len = 0;
@@ -351,6 +404,9 @@ void run_case(char *rest)
 			leak[k] = lc_created - lc_freed;
 		}
 		if (o) json_object_put(o);
+		json_c_set_serialization_double_format(NULL, JSON_C_OPTION_THREAD);
+		json_c_set_serialization_double_format(NULL, JSON_C_OPTION_GLOBAL);
+		if (cfg_bad) { printf("BADCFG"); return; }
 	} else if (op[0] == 'G') {
 		char *hx = strtok_r(NULL, " ", &save);
 		size_t n; unsigned char *b;
